@@ -179,7 +179,9 @@ def family(max_depth, with_macros=False, leaves=None, scoped=None):
 # `[value]`: with the template-level set it must print [T] (or [M] after a set inside the macro), never the
 # context's [CTX] and never [] - that is the native oracle of the closure check.
 # ---------------------------------------------------------------------------------------------
-MACRO_PREFIX = ['', '{% set v = "T" %}', '{% if p2 %}{% set v = "T" %}{% endif %}', '{% for v in l1 %}{% endfor %}{% set w = "T" %}']
+MACRO_PREFIX = ['', '{% set v = "T" %}', '{% if p2 %}{% set v = "T" %}{% endif %}', '{% for v in l1 %}{% endfor %}{% set w = "T" %}',
+                # the template assigns a name that is also a PARAMETER of the macro: a default that reads it (`b=a`) is evaluated before the parameter is bound
+                '{% set a = "T" %}']
 MACRO_SIGS = [('a', 'p1'), ('a, b=a', 'p1'), ('a=v, b=1', ''), ('a, b=v', 'p1'), ('a=a', ''), ('a, b=a, c=b', 'p1'), ('a, v=1', 'p1'), ('a, b=w', 'p1')]
 MACRO_BODIES = [
     '[v={{ v }}]',
